@@ -39,7 +39,7 @@ fn uriref_base<const N: usize>() {
     cover!(split_ref(b).authority.is_some() && e == b.len(), "base is the whole text");
 }
 
-// @h prop=C16,C20 tier=quick kind=check bound="UriRef text <= 10 bytes" encodes="RiRefImpl::base;parse::find_path;PathImpl::directory;UriRef::base;Uri::base"
+// @h prop=C16,C20:thorough tier=quick kind=check bound="UriRef text <= 10 bytes" encodes="RiRefImpl::base;parse::find_path;PathImpl::directory;UriRef::base;Uri::base"
 #[cfg_attr(kani, kani::proof)]
 #[cfg_attr(kani, kani::unwind(12))]
 pub fn c16_uriref_base_n10() {
